@@ -404,6 +404,16 @@ func checkC17Tok(c c17TokCase) *evid.Fail {
 				case 3:
 					tok.SetQuoteState(generic.NewGenericQuoteState())
 					tok.SetNumberState(generic.NewGenericNumberState())
+				case 4:
+					// ... not even for the states that have registrations: those keep naming the object they were given
+					switch (i + len(c.Regs)) % 3 {
+					case 0:
+						tok.SetWordState(generic.NewGenericWordState())
+					case 1:
+						tok.SetSymbolState(generic.NewGenericSymbolState())
+					default:
+						tok.SetWhitespaceState(generic.NewGenericWhitespaceState())
+					}
 				}
 			}
 			if c.Mid && !midDone && consumed <= len([]rune(c.Input)) {
@@ -500,7 +510,15 @@ func checkC17Tok(c c17TokCase) *evid.Fail {
 				n++
 			}
 			sc := rio.NewStringScanner(c.Input)
-			tk := st.NextToken(sc, nil)
+			// the state reads for a tokenizer: none, or one with options on (what the options rewrite is the tokenizer's
+			// business after the state has read its run)
+			var owner tokenizers.ITokenizer
+			if h := len(c.Input) + len(c.Regs); h%2 == 1 {
+				g := generic.NewGenericTokenizer()
+				setOptions(g, []int{optMergeWhitespaces, optAll, optMergeWhitespaces | optSkipWhitespaces, optUnifyNumbers | optDecodeStrings}[(h/2)%4])
+				owner = g
+			}
+			tk := st.NextToken(sc, owner)
 			if tk == nil {
 				res = evid.F("state-nil-token", "%s state returned nil for %q", c.Mode, c.Input)
 				return
